@@ -10,10 +10,10 @@ NOTES = {
     'C01': 'Trusted: ast grammar docs, T1/T2 tables in sa/pyref.py, frozen helper summaries (re-validated each run). Depth-1 '
            'templates (opaque children create no regions; continuity rule covers region-creating children; a child is refined to a real node only where the extractor asks what it is). The lookups themselves are interpreted on the region graph of every construct rebuilt from supp\'s own Flow objects (356 lookups). Not decided: '
            'value-level lookup for arbitrary programs, star-import resolution, builtins, anything depending on Project. API-level glue (which table is consulted, what is marked, copied, sorted, caught) is decided by bounded abstract execution on stub collaborators (sa/api_model.py): exact for the enumerated scenarios, not a proof for all inputs.',
-    'C02': 'Trusted: reference CFG templates T3 (C02 domain). The lookups are interpreted on the region graph of every construct rebuilt from supp\'s own Flow objects, in the state the extractor leaves them in. Not decided: position cut of names_at for arbitrary layouts, '
+    'C02': 'Trusted: reference CFG templates T3 (C02 domain). R5 (continuity) covers statement blocks and, since round 13, the expression children of statements (the iterable of a for, a with item). The lookups are interpreted on the region graph of every construct rebuilt from supp\'s own Flow objects, in the state the extractor leaves them in. Not decided: position cut of names_at for arbitrary layouts, '
            'inter-scope reads, evaluation in declarations() beyond the alternatives list. API-level glue (which table is consulted, what is marked, copied, sorted, caught) is decided by bounded abstract execution on stub collaborators (sa/api_model.py): exact for the enumerated scenarios, not a proof for all inputs.',
     'C03': 'Trusted: reference CFG templates T3 (exceptions that no handler catches are outside the domain). get_expr_end is interpreted on every '
-           'expression class and on 42 concrete layouts. Not decided: how a repaired extractor treats dead regions after return/raise in every join '
+           'expression class and on 47 concrete layouts (five of them hanging indents: a node visited later on an earlier line at a larger column). Not decided: how a repaired extractor treats dead regions after return/raise in every join '
            '(C03-R4 only requires that return/raise differ observably from a plain statement; today they do not: recorded findings).',
     'C04': 'Trusted: typed call graph from the repository\'s # type: comments. Cycles through EvalCtx.evaluate are listed, not '
            'armed. A memo keyed by the extents in progress is accepted on its supporting fact (the guard registers itself where the key is taken from); order independence is decided by interpreting the lookups on the loop region graphs (for / async for / while; compound, simple and nested-loop body statements; every pair of read positions). Not decided: equality of answers under concrete query orders beyond those shapes. API-level glue (which table is consulted, what is marked, copied, sorted, caught) is decided by bounded abstract execution on stub collaborators (sa/api_model.py): exact for the enumerated scenarios, not a proof for all inputs.',
@@ -37,7 +37,7 @@ NOTES = {
            'ordering under concurrent callers, multi-MiB payloads (C14 covers the length formats). API-level glue (which table is consulted, what is marked, copied, sorted, caught) is decided by bounded abstract execution on stub collaborators (sa/api_model.py): exact for the enumerated scenarios, not a proof for all inputs.',
     'C16': 'Trusted: threading.Lock/Thread.join semantics; an own write between two reads re-establishes the value. Not '
            'decided: deadlock freedom with real processes, OS-level Listener/Client behaviour, launch time-outs; R7 decides only that interpreter exit waits for the starter (it is not a daemon thread), not what the operating system does with the child. API-level glue (which table is consulted, what is marked, copied, sorted, caught) is decided by bounded abstract execution on stub collaborators (sa/api_model.py): exact for the enumerated scenarios, not a proof for all inputs.',
-    'C17': 'Trusted: lists built by ast visitors / position-ordered insertion are deterministic; '
+    'C17': 'Trusted: lists built by ast visitors / position-ordered insertion are deterministic; the MultiName order model includes joins made of unions only (round 13); '
            'Not decided: equality of the outputs of two concrete processes. API-level glue (which table is consulted, what is marked, copied, sorted, caught) is decided by bounded abstract execution on stub collaborators (sa/api_model.py): exact for the enumerated scenarios, not a proof for all inputs.',
 }
 
